@@ -172,6 +172,15 @@ func DecodePriv(der, pass []byte) (*PrivParsed, error) {
 	if r.Len() != 0 {
 		return nil, errors.New("refsshkeys: trailing bytes after private section")
 	}
+	// PROTOCOL.key: the private section is padded to the cipher block size
+	// (8 for "none"); sshkey.c refuses anything else
+	blockSize := 8
+	if p.Cipher != "none" {
+		blockSize = 16
+	}
+	if len(sec) < blockSize || len(sec)%blockSize != 0 {
+		return nil, fmt.Errorf("refsshkeys: private section of %d bytes is not padded to the cipher block size %d", len(sec), blockSize)
+	}
 	switch {
 	case p.Cipher == "none" && p.KDF == "none":
 		if len(opts) != 0 {
